@@ -1,15 +1,26 @@
-"""C15 — scan-queue dominance rule (ScanQueue.tla Layer A, SpanningTree.tla Layer B).
+"""C15 — scan-queue dominance rule and sync termination (ScanQueue.tla Layer A, SpanningTree.tla Layer B,
+SyncLoop.tla, queue laws of Wallet/Trace_Wallet.tla).
 
 1. TLC checks, for every insertion sequence within the bounds, that the transcribed data structure
    yields the canonical form of the pointwise dominance function (Refines), gap-freeness, canonical
    shape and stickiness of Scanned.
 2. Every edge of that state graph is replayed on the real `SpanningTree` (spec -> code), comparing
    `into_vec()` with the Layer-A prediction, at two base heights (one just below u32::MAX).
+3. TLC checks SyncLoop.tla: the documented sync client against the queue, with a bounded environment (new
+   blocks, rewinds): every client step scans only unscanned blocks and at least one (safety), and under weak
+   fairness of the client the loop ends with nothing suggested and everything scanned (liveness).
+4. The real wallet: the sync client is played against `suggest_scan_ranges` of the real SQLite wallet on chains
+   of 12-260 blocks with notes, partial earlier scans and environment interference; TLC validates the trace
+   against Trace_Wallet.tla: after every wallet operation the `scan_queue` table is sorted, gap-free, merged,
+   ends at the tip and carries Scanned exactly on the scanned heights; suggestions are exactly the entries of
+   priority >= Historic in priority-then-height order; every client step makes progress; the loop terminates
+   with everything scanned in no more steps than blocks.
 """
 import json
 import os
 
 from . import lib
+from . import c01
 
 AREA = "ScanQueue"
 ACTIONS = ["Insert"]
@@ -89,6 +100,61 @@ def run(ctx):
                         "expected_vec": edges[len(edges) // 2]["vec"]})
         ctx.add_sample({"pre": edges[-1]["pre"], "step": edges[-1]["step"], "expected_vec": edges[-1]["vec"]})
     ctx.traces = total_edges
+
+    # (3) the sync loop: safety and liveness on the model
+    d2 = lib.stage_specs(ctx, AREA)
+    cfg = "MC_SyncLoop_gen.cfg"
+    with open(os.path.join(d2, cfg), "w") as f:
+        f.write("SPECIFICATION Spec\nCONSTANTS\n  MaxTop = %d\n  EnvBudget = %d\nINVARIANTS StepBound NoneAboveTop\n"
+                "PROPERTIES Progress Terminates\nCHECK_DEADLOCK FALSE\n" % ((5, 3) if ctx.quick() else (6, 3)))
+    r = lib.tlc(ctx, d2, "SyncLoop", cfg, workers=8, timeout=3000)
+    lib.require_coverage(r, ["UpdateTip", "Scan", "EnvBlock", "EnvRewind"])
+    lib.account_tlc(ctx, r)
+
+    # (4) the real wallet's queue and the real sync loop
+    wbin = lib.cargo_build("h_wallet", ["c01_driver"])
+    wd = ctx.path("wspec")
+    os.makedirs(wd, exist_ok=True)
+    for a in ("lib", "Wallet"):
+        src = lib.spec_dir(a)
+        for fn in os.listdir(src):
+            if fn.endswith(".tla") or fn.endswith(".cfg"):
+                import shutil
+                shutil.copy(os.path.join(src, fn), os.path.join(wd, fn))
+    plans = [("sync", ["sync-scenarios", "8" if ctx.quick() else "40"]), ("hist", ["8" if ctx.quick() else "40", "70"])]
+    qstats = {"suggest": 0, "client_steps": 0, "syncdone": 0, "queue_states": 0}
+    for i, (name, args) in enumerate(plans):
+        path = ctx.path("trace_%s.ndjson" % name)
+        lib.run_bin(os.path.join(wbin, "c01_driver"), [path] + args, env_extra={"VERIF_SEED": str(ctx.seed * 100 + i)}, timeout=3000)
+        with open(path) as f:
+            for line in f:
+                rr = json.loads(line)
+                if rr["a"] == "suggest":
+                    qstats["suggest"] += 1
+                    if len(ctx.samples) < 5 and rr["ranges"]:
+                        ctx.add_sample({"suggested": rr["ranges"], "queue": rr["post"]["queue"]})
+                elif rr["a"] == "scan" and rr.get("client"):
+                    qstats["client_steps"] += 1
+                elif rr["a"] == "syncdone":
+                    qstats["syncdone"] += 1
+                if (rr.get("post") or {}).get("chk"):
+                    qstats["queue_states"] += 1
+        acc, n, detail, _ = lib.tlc_validate(ctx, wd, "Trace_Wallet", "Trace_Wallet.cfg", path, timeout=3000,
+                                             env_extra=c01.trace_env(ledger=True))
+        if acc:
+            ctx.traces += n
+        else:
+            with open(path) as f:
+                lines = f.read().splitlines()
+            start = max(k for k in range(n) if json.loads(lines[k])["a"] == "reset")
+            lib.violation(ctx, {"property": "C15", "kind": "wallet_trace_rejected", "first_unmatched_event": n,
+                                "event": json.loads(lines[n - 1]), "history": [json.loads(x) for x in lines[start:n]]},
+                          "event %d of the recorded wallet history is not allowed by Trace_Wallet.tla (scan queue shape / "
+                          "suggestion order / client progress / termination): %s" % (n, detail[:1200]))
+            break
+    if not ctx.violations and (qstats["syncdone"] < 4 or qstats["client_steps"] < 20):
+        raise lib.ToolError("vacuity: sync loop not exercised: %s" % qstats)
+    ctx.extra["wallet_queue_stats"] = qstats
     ctx.extra["layer_b_shape"] = {"agree": shape_agree, "differs": shape_differs,
                                   "note": "tree shape vs transcription; informational only, never a violation"}
     ctx.extra["panics_observed_after_empty_range"] = panics_seen
@@ -107,6 +173,25 @@ def replay(ctx, path):
     bindir = lib.cargo_build("h_wallet", ["c15_replay"])
     with open(path) as f:
         rep = json.load(f)
+    if rep.get("kind") == "wallet_trace_rejected":
+        wd = ctx.path("wspec")
+        os.makedirs(wd, exist_ok=True)
+        import shutil
+        for a in ("lib", "Wallet"):
+            src = lib.spec_dir(a)
+            for fn in os.listdir(src):
+                if fn.endswith(".tla") or fn.endswith(".cfg"):
+                    shutil.copy(os.path.join(src, fn), os.path.join(wd, fn))
+        tp = ctx.path("replay_trace.ndjson")
+        with open(tp, "w") as f:
+            for e in rep["history"]:
+                f.write(json.dumps(e) + "\n")
+        acc, n, detail, _ = lib.tlc_validate(ctx, wd, "Trace_Wallet", "Trace_Wallet.cfg", tp, env_extra=c01.trace_env(ledger=True))
+        if acc:
+            lib.log("replay: recorded history is accepted by the specification")
+        else:
+            lib.violation(ctx, rep, "replayed history still rejected at event %d: %s" % (n, detail[:800]))
+        return
     ep = ctx.path("replay_edge.ndjson")
     with open(ep, "w") as f:
         f.write(json.dumps(rep["edge"]) + "\n")
